@@ -27,6 +27,7 @@ func registrationScenario(t *testing.T, x *explore.X, maxConns int) {
 	var clients []*world.Peer
 	var shutErr error
 	servedOpenAtNil := ""
+	openAfterClose := ""
 	tsched.Run(t, x, 30*time.Second, false, func() {
 		var err error
 		w, err = world.Start(world.Options{ShutdownTimeout: shutdownTO, Tweak: func(cfg *forwarder.HTTPProxyConfig, _ *forwarder.HTTPTransportConfig) { cfg.IdleTimeout = idleTO }})
@@ -61,6 +62,13 @@ func registrationScenario(t *testing.T, x *explore.X, maxConns int) {
 			}
 			if !closer {
 				mp.Close()
+				// Close has returned: every accepted socket is closed NOW (not when an idle limit cleans up later)
+				for i, c := range clients {
+					// (a connection whose handler has not started yet is closed by that handler a moment later)
+					if st := c.C.Status(); !st.PeerClosed && (st.PeerReading || st.PeerRead > 0) {
+						openAfterClose += fmt.Sprintf(" client%d", i)
+					}
+				}
 			}
 		})
 		if closer {
@@ -76,6 +84,9 @@ func registrationScenario(t *testing.T, x *explore.X, maxConns int) {
 		what := fmt.Sprintf("%d connections %v, separate close caller=%v", nconn, behaviour, closer)
 		if servedOpenAtNil != "" {
 			x.Failf("shutdown-success-with-served-connection-open", "%s: Shutdown returned nil while connections being served were still open:%s\n  schedule: %v", what, servedOpenAtNil, s.Trace)
+		}
+		if openAfterClose != "" {
+			x.Failf("socket-open-after-close", "%s: when Close returned (after Shutdown: %v) these accepted sockets were still open:%s\n  schedule: %v", what, shutErr, openAfterClose, s.Trace)
 		}
 		for i, c := range clients {
 			if st := c.C.Status(); !st.PeerClosed {
